@@ -46,8 +46,9 @@ func TestMain(m *testing.M) {
 }
 
 const (
-	runTimeout = 60 * time.Second
-	watchdogMs = 4000
+	runTimeout      = 90 * time.Second
+	watchdogMs      = 4000  // first attempt: no operation finishes for 4 s (normal operations take milliseconds)
+	retryWatchdogMs = 12000 // attempts 2 and 3 at the same injection point
 )
 
 // Known-finding fingerprints (honoured only while listed open in known_findings.json).
@@ -198,8 +199,8 @@ func genConcurrent(t *rapid.T) *workload {
 
 func workers() int {
 	n := runtime.NumCPU()
-	if n > 12 {
-		n = 12
+	if n > 8 {
+		n = 8
 	}
 	if n < 2 {
 		n = 2
@@ -301,7 +302,11 @@ func evaluate(w *workload, objs []*fsobj.Obj, f fault) (o outcome) {
 	var lastHang string
 	const tries = 3
 	for attempt := 0; attempt < tries; attempt++ {
-		o2, hang, hangNote := evaluateOnce(w, objs, f)
+		wa := *w
+		if attempt > 0 {
+			wa.spec.WatchdogMs = retryWatchdogMs // rule out a merely slow machine before calling it a hang
+		}
+		o2, hang, hangNote := evaluateOnce(&wa, objs, f)
 		if !hang {
 			if hangs > 0 {
 				// a hang that did not reproduce at the same injection point is not a verdict
@@ -319,7 +324,7 @@ func evaluate(w *workload, objs []*fsobj.Obj, f fault) (o outcome) {
 	// reproduced `tries` times at the same injection point
 	o.labels = append(o.labels, "hang-reproduced-3x")
 	{
-		o.viol = fmt.Sprintf("the storage hangs (no operation finishes for %d ms; reproduced %d times at the same injection point): %s", watchdogMs, tries, lastHang)
+		o.viol = fmt.Sprintf("the storage hangs (no operation finishes for %d ms, then twice for %d ms: reproduced %d times at the same injection point): %s", watchdogMs, retryWatchdogMs, tries, lastHang)
 	}
 	return o
 }
@@ -558,6 +563,31 @@ func isBatchLockHang(res *sysinject.Result, inj []int) bool {
 	return false
 }
 
+// isBatchOpen reports whether the k-th openat of the main thread in the dry run creates a combined batch file:
+// an O_TMPFILE open whose descriptor is next used by writev.
+func isBatchOpen(dry *sysinject.Result, k int) bool {
+	n := 0
+	for i, e := range dry.Events {
+		if e.Tid != dry.MainTid || e.Name != "openat" {
+			continue
+		}
+		n++
+		if n != k {
+			continue
+		}
+		if !strings.Contains(e.Args, "O_TMPFILE") {
+			return false
+		}
+		for j := i + 1; j < len(dry.Events); j++ {
+			if dry.Events[j].Tid == dry.MainTid && dry.Events[j].Name != "faccessat" {
+				return dry.Events[j].Name == "writev"
+			}
+		}
+		return false
+	}
+	return false
+}
+
 func short(s string, n int) string {
 	if len(s) > n {
 		return s[:n] + "…"
@@ -711,6 +741,7 @@ func TestC13Sequential(t *testing.T) {
 		rot := rapid.IntRange(0, 2).Draw(t, "errnoRotation")
 		var faults []fault
 		var singles []sysinject.Inject
+		batchOpenKept := false
 		for _, sc := range faultSyscalls {
 			ks := map[int]bool{}
 			for k := tc.pre[sc] + 1; k <= tc.total[sc]; k++ {
@@ -727,6 +758,15 @@ func TestC13Sequential(t *testing.T) {
 			for _, k := range kk {
 				if sc == "openat" && k <= tc.pre[sc] {
 					continue
+				}
+				if sc == "openat" && ev.IsOpen("C13", fpBatchLock) && isBatchOpen(dry, k) {
+					// known finding: every failed batch open wedges the writer (3 watchdog runs each);
+					// one representative per workload keeps the KNOWN-FINDING line, the rest is excluded
+					if batchOpenKept {
+						rec.Excluded(1)
+						continue
+					}
+					batchOpenKept = true
 				}
 				in := sysinject.Inject{Syscall: sc, Errno: errnos[(k+rot)%len(errnos)], When: fmt.Sprint(k)}
 				singles = append(singles, in)
@@ -774,11 +814,21 @@ func TestC13Concurrent(t *testing.T) {
 		_ = dryRun(t, w, objs)
 		nf := rapid.IntRange(6, 12).Draw(t, "faultCases")
 		var faults []fault
-		scs := []string{"writev", "linkat", "fdatasync", "close", "openat", "mkdirat"}
+		scs := []string{"writev", "writev", "linkat", "linkat", "linkat", "fdatasync", "close", "openat", "mkdirat"}
+		// per-thread counters: a thread rarely makes more than a few calls of one kind, so small ordinals are the
+		// ones that fire (measured via the faults-N labels)
+		nWrites := w.spec.NumOps() - len(w.spec.Probes)
+		maxWhen := max(3, 2*nWrites/len(w.spec.Phases[0].Workers)+1)
+		if ev.IsOpen("C13", fpBatchLock) {
+			// known finding: a failed batch open wedges the writer; with concurrent writers nearly every openat
+			// fault would only re-discover it (12 s of watchdog each), so the class is left to the sequential test
+			scs = []string{"writev", "writev", "linkat", "linkat", "linkat", "fdatasync", "close", "mkdirat"}
+			rec.Excluded(1)
+		}
 		for i := 0; i < nf; i++ {
 			mk := func(tag string) sysinject.Inject {
 				sc := rapid.SampledFrom(scs).Draw(t, "syscall"+tag)
-				k := rapid.IntRange(1, 12).Draw(t, "when"+tag)
+				k := rapid.IntRange(1, maxWhen).Draw(t, "when"+tag)
 				when := fmt.Sprint(k)
 				if rapid.IntRange(0, 3).Draw(t, "repeat"+tag) == 0 {
 					when = fmt.Sprintf("%d+%d", k, rapid.IntRange(2, 9).Draw(t, "step"+tag))
